@@ -1,4 +1,4 @@
-(* The sweep over the whole configuration product of C06, by computation (vm_compute, about 10 s). *)
+(* The sweep over the whole configuration product of C06, by computation (vm_compute, about 40 s). *)
 From Coq Require Import List NArith Bool.
 From GmsmVerif Require Import Gen.TLSSuites Resume.ResumeModel Agree.AgreeModel Agree.AgreeSpec.
 
@@ -6,5 +6,5 @@ Lemma sweep_agree_check : sweep agree_check = true.
 Proof. vm_compute. reflexivity. Qed.
 
 (* size of the product and of its allowed part (evidence; also shows the sweep is not over an empty domain) *)
-Lemma product_size : count (fun _ => true) = 95040%N /\ count policy_allows = 5632%N.
+Lemma product_size : count (fun _ => true) = 190080%N /\ count policy_allows = 10240%N.
 Proof. vm_compute. split; reflexivity. Qed.
